@@ -1108,7 +1108,15 @@ impl Prop for C20 {
     fn prepare(&mut self, tier: Tier) -> Result<(), String> {
         let all = scripts();
         self.cases.clear();
+        // VERIF_C20_FILTER=<packing>[,<packing>..] (tooling only; the registered commands never set it): explore only the
+        // scripts of these packings, at the bounds of the tier — to try a new packing without the whole tier
+        let only: Option<Vec<String>> = std::env::var("VERIF_C20_FILTER").ok().map(|v| v.split(',').map(|x| x.trim().to_string()).collect());
         for (i, s) in all.iter().enumerate() {
+            if let Some(o) = &only {
+                if !o.contains(&format!("{:?}", s.packing)) {
+                    continue;
+                }
+            }
             if s.end_after > 3 {
                 self.cases.push((i, 0));
                 continue;
